@@ -477,8 +477,8 @@ func init() {
 			"completes with normal replies, its message is acknowledged 250 and stored, its POP3 deletion applied on QUIT; each Drain returns " +
 			"only when no session accepted before cancel is still running, and does return; Join returns within one simulated second; no task " +
 			"panics (e.g. on events emitted after the hub stopped). non-trivial = every run, distinct by shape and steps",
-		Real: []string{"pkg/server (FullAssembly, Services.Start)", "pkg/server/smtp", "pkg/server/pop3", "pkg/server/web (Start/serve)", "pkg/msghub", "pkg/storage RetentionScanner", "stores", "net/http.Server.Serve on the simulated listener"},
-		Stub: []string{"cmd/inbucket/main.go signal loop (15-line driver with the same order of calls; the 15 s forced exit is not modelled)", "TCP", "disk", "clock", "scheduler"},
+		Real:        []string{"pkg/server (FullAssembly, Services.Start)", "pkg/server/smtp", "pkg/server/pop3", "pkg/server/web (Start/serve)", "pkg/msghub", "pkg/storage RetentionScanner", "stores", "net/http.Server.Serve on the simulated listener"},
+		Stub:        []string{"cmd/inbucket/main.go signal loop (15-line driver with the same order of calls; the 15 s forced exit is not modelled)", "TCP", "disk", "clock", "scheduler"},
 		Assumptions: []string{"Lua host disabled (no script)", "TLS never enabled"},
 	})
 }
